@@ -44,10 +44,8 @@ class RenameLocals(ast.NodeTransformer):
                 declared |= set(n.names)
         def collect(node):
             for ch in ast.iter_child_nodes(node):
-                if isinstance(ch, (ast.FunctionDef, ast.Lambda, ast.ClassDef)):
-                    if isinstance(ch, ast.FunctionDef) and ch.name not in names:
-                        pass        # nested function names are not renamed (could be referenced as attribute names elsewhere)
-                    continue
+                if isinstance(ch, (ast.FunctionDef, ast.Lambda, ast.ClassDef, ast.ListComp, ast.SetComp, ast.DictComp, ast.GeneratorExp)):
+                    continue        # inner scopes bind their own names
                 if isinstance(ch, ast.Name) and isinstance(ch.ctx, ast.Store) and ch.id not in names:
                     names.append(ch.id)
                 collect(ch)
